@@ -242,7 +242,7 @@ TB_ICU_LAWS2 = "ICU laws idna_ascii_lower (Properties_C08.v) and idna_idem (Proo
 
 TB_SER = "Impl/Serializer.v: hand model of detail::url_serializer / detail::url_setter (replace_part, start_part / save_part, strp_ splice, path_seg_end_, shorten_path, adjust_path_prefix, clear_part / empty_part, strip); tied by the `ser` command: the same operation sequences on a real url_serializer / url_setter bound to a real url whose private members are set to the given values, every member compared after every operation (serops stream)"
 
-TB_TRACE = "settrace: the call sequence of the hash / search / port / username / password setters is observed on the real url_parser::url_parse through a logging subclass of detail::url_setter (virtual members only; set_flag is seen as an added flag bit, potentially_strip_trailing_spaces is not seen); the setters' own glue code is repeated in harness/driver.cpp and its effect compared with the real setter on a second object"
+TB_TRACE = "settrace: the call sequence of the hash / search / port / username / password / host / hostname setters is observed on the real url_parser::url_parse through a logging subclass of detail::url_setter (virtual members only; set_flag is seen as an added flag bit, potentially_strip_trailing_spaces is not seen); the setters' own glue code is repeated in harness/driver.cpp and its effect compared with the real setter on a second object"
 
 PROPS = {
     "C13": P("proof", streams=["setapply"], proof_search=c13_search, premain=True,
